@@ -547,11 +547,99 @@ def boundary(rng, values, low):
     return max(0, rng.choice(half) + rng.choice([0, 0, 0, 1 if low else -1, -1 if low else 1]))
 
 
+def target_values(rng, level, docs):
+    """Bound values around one item of the level the bounds finally bite on (a token, or an n-gram of the unpruned
+    documents): minima at its own counts, maxima at the largest counts among its tokens (which are never rarer than
+    the n-gram), so that the item survives the whole combination while rarer / commoner items do not; each bound is
+    thus exactly on a boundary ('a token occurring exactly the bound is kept').  Returned per bound: (k, total)."""
+    counts, dcounts = count_tables(level)
+    tcounts, tdcounts = count_tables(docs)
+    n, nt, nd = sum(len(d) for d in level), sum(len(d) for d in docs), len(docs)
+    if not counts:
+        return None
+    items = sorted(counts, key=lambda g: (counts[g], dcounts[g], str(g)))
+    g = items[rng.randint(len(items) // 3, max(len(items) // 3, (2 * len(items)) // 3))]
+    toks = list(g) if isinstance(g, tuple) else [g]
+    return {"min_occ": (counts[g], n), "max_occ": (max(tcounts[t] for t in toks), nt),
+            "min_freq": min((counts[g], n), (min(tcounts[t] for t in toks), nt), key=lambda p: Fraction(*p)),
+            "max_freq": max((counts[g], n), (max(tcounts[t] for t in toks), nt), key=lambda p: Fraction(*p)),
+            "min_dococc": (dcounts[g], nd), "max_dococc": (max(tdcounts[t] for t in toks), nd),
+            "min_docfreq": (dcounts[g], nd), "max_docfreq": (max(tdcounts[t] for t in toks), nd)}
+
+
+def table_case(rng, i, stage, dp, tp, single=False):
+    """One case of the table: document-bound pattern dp, (min side, max side) token-bound pattern tp.  single: the
+    case has exactly one bound (second block of the table) — no other pruning parameter; a lone maximum on the
+    n-gram stage can only bite through n-grams of the mask, so: mask mode and a bound below the commonest tokens."""
+    single_max = single and stage == "ngram" and (any(b.startswith("max") for b in dp) or tp[1] is not None)
+    docs, vocab = table_docs(rng, phrases=(stage == "ngram" and rng.random() < 0.5))
+    if stage == "unigram":
+        entry = UNIGRAM_ROTATION[i % len(UNIGRAM_ROTATION)]
+        step = shape_step(rng, entry, docs, vocab)
+        ng, level = None, step["docs"]
+    else:
+        entry, gn, beh = NGRAM_ROTATION[i % len(NGRAM_ROTATION)]
+        ng = {"n": gn, "behaviour": beh}
+        step = shape_step(rng, entry, docs, vocab)
+        level = [py_ngrams(d, gn, beh) for d in step["docs"]]
+    docs = step["docs"]
+    counts, dcounts = count_tables(level)
+    n, nd = sum(len(d) for d in level), len(docs)
+    tv = target_values(rng, level, docs) if ((single or rng.random() < 0.7) and not single_max) else None
+    if single_max:
+        # the commonest tokens are masked; the n-grams of the mask are then commoner than the bound
+        counts, dcounts = count_tables(docs)
+        n = sum(len(d) for d in docs)
+
+    def value(b):
+        """(k, total) for bound b"""
+        low = b.startswith("min")
+        if tv:
+            k, tot = tv[b]
+            return max(0, k + rng.choice([0, 0, 0, 0, 0, 0, -1 if low else 1, -1 if low else 1, 1 if low else -1])), tot
+        return boundary(rng, set((dcounts if "doc" in b else counts).values()), low or single_max), \
+            (nd if "doc" in b else max(n, 1))
+
+    cfg = _cfg()
+    for b in dp:
+        k, tot = value(b)
+        cfg[b] = k if b.endswith("occ") else k / tot
+    for side in ("min", "max"):
+        if side + "_dococc" in dp and side + "_docfreq" in dp:
+            cfg[side + "_docfreq"] = cfg[side + "_dococc"] / nd       # given twice: they must agree
+    for side, kind in zip(("min", "max"), tp):
+        if kind in ("occ", "both"):
+            k, tot = value(side + "_occ")
+            cfg[side + "_occ"] = k
+            if kind == "both":
+                cfg[side + "_freq"] = k / max(n, 1)                   # unigram stage only: n = number of tokens
+        elif kind == "freq":
+            k, tot = value(side + "_freq")
+            f = k / tot
+            cfg[side + "_freq"] = f if rng.random() < 0.7 else f * (0.999 if side == "min" else 1.001)
+    if rng.random() < 0.15 and entry != "tree" and not single:
+        cfg["max_unique"] = rng.randint(1, len(counts) + 1)
+    if rng.random() < 0.15 and not single:
+        cfg["excluded"] = rng.sample(vocab, 1)
+    case = {"kind": "vocab", "entry": entry, "cfg": cfg, "dict": None, "mask": None,
+            "excl_type": rng.choice(["set", "list", "frozenset"]), "table": [stage, list(dp), list(tp)]}
+    if ng:
+        case["ngram"] = ng
+    # a maximum can only bite on the second stage through n-grams of the mask (an n-gram is never
+    # commoner than its tokens): mask mode for half of the n-gram cases
+    if entry == "timed" or single_max or (rng.random() < (0.5 if ng else 0.2) and entry not in ("skipgram", "prune")):
+        case["mask"] = "MASK"
+    case.update(step)
+    return case
+
+
 def table_cases(rng, reps):
-    """Every subset of the four document bounds x every (min side, max side) choice among none / occurrences /
-    frequency / both (consistent), for unigram vocabularies through the eight single-stage entry points in rotation
-    and — 'both' excluded, see gen_case — for n-gram vocabularies; bound values on the boundaries of the counts of
-    the stage they bite on."""
+    """Block 1: every subset of the four document bounds x every (min side, max side) choice among none /
+    occurrences / frequency / both (consistent), for unigram vocabularies through the eight single-stage entry points
+    in rotation and — 'both' excluded, see gen_case — for n-gram vocabularies; bound values on the boundaries of the
+    counts of the stage they bite on: around one target item that survives the combination (70 %), or drawn
+    independently.  Block 2: each of the eight bounds as the ONLY constraint, several corpora each, both stages (a
+    bound that one code path forgets when it stands alone shows here)."""
     out, i = [], 0
     for rep in range(reps):
         for stage in ("unigram", "ngram"):
@@ -560,45 +648,14 @@ def table_cases(rng, reps):
                     if stage == "ngram" and "both" in tp:
                         continue
                     i += 1
-                    docs, vocab = table_docs(rng, phrases=(stage == "ngram" and rng.random() < 0.6))
-                    if stage == "unigram":
-                        entry = UNIGRAM_ROTATION[i % len(UNIGRAM_ROTATION)]
-                        step = shape_step(rng, entry, docs, vocab)
-                        ng, level = None, step["docs"]
-                    else:
-                        entry, gn, beh = NGRAM_ROTATION[i % len(NGRAM_ROTATION)]
-                        ng = {"n": gn, "behaviour": beh}
-                        step = shape_step(rng, entry, docs, vocab)
-                        level = [py_ngrams(d, gn, beh) for d in step["docs"]]
-                    docs = step["docs"]
-                    counts, dcounts = count_tables(level)
-                    n, nd = sum(len(d) for d in level), len(docs)
-                    cfg = _cfg()
-                    for b in dp:
-                        k = boundary(rng, set(dcounts.values()), b.startswith("min"))
-                        cfg[b] = k if b.endswith("occ") else k / nd
-                    for side in ("min", "max"):
-                        if side + "_dococc" in dp and side + "_docfreq" in dp:
-                            cfg[side + "_docfreq"] = cfg[side + "_dococc"] / nd       # given twice: they must agree
-                    for side, kind in zip(("min", "max"), tp):
-                        k = boundary(rng, set(counts.values()), side == "min")
-                        if kind in ("occ", "both"):
-                            cfg[side + "_occ"] = k
-                        if kind in ("freq", "both"):
-                            f = k / max(n, 1)
-                            cfg[side + "_freq"] = f if (kind == "both" or rng.random() < 0.7) else f * rng.choice([0.999, 1.001])
-                    if rng.random() < 0.15 and entry != "tree":
-                        cfg["max_unique"] = rng.randint(1, len(counts) + 1)
-                    if rng.random() < 0.15:
-                        cfg["excluded"] = rng.sample(vocab, 1)
-                    case = {"kind": "vocab", "entry": entry, "cfg": cfg, "dict": None, "mask": None,
-                            "excl_type": rng.choice(["set", "list", "frozenset"]), "table": [stage, list(dp), list(tp)]}
-                    if ng:
-                        case["ngram"] = ng
-                    if entry == "timed" or (rng.random() < 0.2 and entry not in ("skipgram", "prune")):
-                        case["mask"] = "MASK"
-                    case.update(step)
-                    out.append(case)
+                    out.append(table_case(rng, i, stage, dp, tp))
+            for rep2 in range(2 if stage == "unigram" else 6):
+                for b in DOC_BOUNDS:
+                    i += 1
+                    out.append(table_case(rng, i, stage, (b,), (None, None), single=True))
+                for tp in ((("occ", None), (None, "occ"), ("freq", None), (None, "freq"))):
+                    i += 1
+                    out.append(table_case(rng, i, stage, (), tp, single=True))
     return out
 
 
@@ -925,7 +982,7 @@ def run(ctx, replay=None):
             results.append(r["steps"][si] if "steps" in r else r)        # r = {"err":…}: the estimator could not be built
         else:
             results.append(r)
-    corr_bad, n_oracle, n_corr, bites = [], 0, 0, {}
+    corr_bad, n_oracle, n_corr, bites, changed = [], 0, 0, {}, []
     failed_cases = set()
     for (ci, si), c, got, m in zip(owner, flat, results, model):
         top = cases[ci]
@@ -945,11 +1002,8 @@ def run(ctx, replay=None):
         for b in stage2_bites(c, got):
             bites[b] = bites.get(b, 0) + 1
         where = " (call %d of a history sharing %s, excluded_tokens a %s)" % (si + 1, top["share"], top["excl_type"]) if hist else ""
-        if got.get("param_change") and ci not in failed_cases:
-            failed_cases.add(ci)
-            ctx.report("a parameter object was changed by the call%s (%s): %s" % (where, c["entry"], got["param_change"]),
-                       {"stage": "oracle", "case": top, "call": si, "actual": got})
-            continue
+        if got.get("param_change"):
+            changed.append((ci, si, "a parameter object was changed by the call%s (%s): %s" % (where, c["entry"], got["param_change"]), got))
         fails = check_property(c, sp, got)
         n_oracle += 1
         if fails:
@@ -964,6 +1018,12 @@ def run(ctx, replay=None):
         diff = compare(c, got, mv)
         if diff:
             corr_bad.append((top, si, got, mv, diff))
+    # a changed parameter object: reported after the wrong vocabularies it leads to (histories first: there the
+    # change is what a later call sees)
+    changed.sort(key=lambda x: (cases[x[0]]["kind"] != "history", x[0], x[1]))
+    for ci, si, what, got in changed[:2]:
+        ctx.report(what, {"stage": "oracle", "case": cases[ci], "call": si, "actual": got})
+    ctx.coverage["oracle_param_objects"] = {"calls_compared_before_after": len(flat), "changed": len(changed)}
     ctx.coverage["correspondence"] = {"cases": n_corr, "disagreements": len(corr_bad),
                                       "model": "Model/K5_Vocab.v + K5_Float.v + K6_Reindex.v via vm_compute",
                                       "compared": "dictionary (token -> index), float32 frequencies bit-exactly, "
